@@ -90,3 +90,68 @@ Definition utf16_units (c : N) : list N :=
 (** big-endian serialisation of the code units of a string *)
 Definition utf16be_bytes (u : ustr) : bytes :=
   flat_map (fun x => [x / 256; x mod 256]) (flat_map utf16_units u).
+
+(* ------------------------------------------------------------------ *)
+(** * ToUnicode CMaps (ISO 32000-1 §9.10.3, Adobe TN 5014 §1.4.1 / TN 5411): bfchar and bfrange sections *)
+
+(** upper-case hexadecimal, two digits per byte, between < and > *)
+Definition hexdig (d : N) : N := if d <? 10 then 48 + d else 55 + d.
+Definition hexU (b : bytes) : bytes := flat_map (fun x => [hexdig (x / 16); hexdig (x mod 16)]) b.
+Definition hstr (b : bytes) : bytes := 60 :: hexU b ++ [62].
+
+(** a source code: two bytes, big endian *)
+Definition cid_bytes (c : N) : bytes := [c / 256; c mod 256].
+
+Definition kw_beginbfchar : bytes := [98;101;103;105;110;98;102;99;104;97;114].
+Definition kw_endbfchar : bytes := [101;110;100;98;102;99;104;97;114].
+Definition kw_beginbfrange : bytes := [98;101;103;105;110;98;102;114;97;110;103;101].
+Definition kw_endbfrange : bytes := [101;110;100;98;102;114;97;110;103;101].
+
+(** <src> <dst>            : src -> dst
+    <lo> <hi> [<d0> … ]   : lo + i -> d_i    (the string form <lo> <hi> <dst> is outside this text type: it is judged by the
+                             python specification oracle on every run and by CmapProofs.cmap_range_string_example) *)
+Definition rentry := (N * N * list ustr)%type.
+Inductive csection := SChar (es : list (N * ustr)) | SRange (rs : list rentry).
+Definition cmap_text := list csection.
+
+(** one spelling of the text: every entry on its own line, one space between the operands *)
+Definition render_char (e : N * ustr) : bytes :=
+  10 :: hstr (cid_bytes (fst e)) ++ 32 :: hstr (utf16be_bytes (snd e)).
+Definition render_items (bs : list bytes) : bytes :=
+  match bs with
+  | [] => []
+  | b :: t => hstr b ++ flat_map (fun x => 32 :: hstr x) t
+  end.
+Definition render_range (r : rentry) : bytes :=
+  let '(lo, hi, us) := r in
+  10 :: hstr (cid_bytes lo) ++ 32 :: hstr (cid_bytes hi) ++ 32 :: 91 :: render_items (map utf16be_bytes us) ++ [93].
+Definition render_section (s : csection) : bytes :=
+  match s with
+  | SChar es => kw_beginbfchar ++ flat_map render_char es ++ 10 :: kw_endbfchar ++ [10]
+  | SRange rs => kw_beginbfrange ++ flat_map render_range rs ++ 10 :: kw_endbfrange ++ [10]
+  end.
+Definition render_cmap (t : cmap_text) : bytes := flat_map render_section t.
+
+(** meaning: a finite map from codes to strings; a later entry replaces an earlier one
+    (finite maps are association lists sorted by code: [map_insert]) *)
+Fixpoint zip_insert (c : N) (us : list ustr) (n : nat) (m : cmap) : cmap :=
+  match n, us with
+  | S k, u :: t => zip_insert (c + 1) t k (map_insert c u m)
+  | _, _ => m
+  end.
+Definition denote_range (r : rentry) (m : cmap) : cmap :=
+  let '(lo, hi, us) := r in zip_insert lo us (N.to_nat (hi + 1 - lo)) m.
+Definition denote_section (s : csection) (m : cmap) : cmap :=
+  match s with
+  | SChar es => fold_left (fun m e => map_insert (fst e) (snd e) m) es m
+  | SRange rs => fold_left (fun m r => denote_range r m) rs m
+  end.
+Definition denote_sections (t : cmap_text) (m : cmap) : cmap := fold_left (fun m s => denote_section s m) t m.
+Definition cmap_denote (t : cmap_text) : cmap := denote_sections t [].
+
+Definition wf_ustr (u : ustr) : Prop := forallb is_scalar u = true.
+Definition wf_char (e : N * ustr) : Prop := fst e < 65536 /\ wf_ustr (snd e).
+Definition wf_range (r : rentry) : Prop := let '(lo, hi, us) := r in lo < 65536 /\ hi < 65536 /\ Forall wf_ustr us.
+Definition wf_section (s : csection) : Prop :=
+  match s with SChar es => Forall wf_char es | SRange rs => Forall wf_range rs end.
+Definition wf_cmap (t : cmap_text) : Prop := Forall wf_section t.
